@@ -165,6 +165,9 @@ fn check_fixpoint(d: &Doc, rec: &mut Rec) -> Verdict {
 // (b) chunk independence
 
 fn check_chunking(bytes: &[u8], plan: &ReaderPlan, rec: &mut Rec) -> Verdict {
+    // chunk independence is about how the bytes are *split*: a plan that also makes the reader fail (the C03 fuzz
+    // input byte can ask for time-outs) is reduced to its splitting part - a reader that fails may be answered with an error
+    let plan = &ReaderPlan { fail_at: None, fail_forever: false, fail_every: 0, ..plan.clone() };
     let Ok(text) = std::str::from_utf8(bytes) else { return Verdict::Pass };
     let whole = match fueled(text.len(), || from_str(text)) {
         Ok(r) => r.ok().map(|v| project(&v)),
